@@ -137,14 +137,19 @@ func (vfs *MemFS) VolumeDelete(path string) error {
 		return &fs.PathError{Op: op, Path: path, Err: avfs.ErrVolumeNameInvalid}
 	}
 
-	_, ok := vfs.volumes[vol]
+	root, ok := vfs.volumes[vol]
 	if !ok {
 		return &fs.PathError{Op: op, Path: path, Err: avfs.ErrVolumeNameInvalid}
 	}
 
-	err := vfs.RemoveAll(vol)
+	// the root directory of a volume can't be removed by RemoveAll : its content is removed here.
+	verifYield(&root.mu, true)
+	root.mu.Lock()
+	err := vfs.removeContent(root)
+	root.mu.Unlock()
+
 	if err != nil {
-		return err
+		return &fs.PathError{Op: op, Path: path, Err: err}
 	}
 
 	delete(vfs.volumes, vol)
